@@ -94,7 +94,11 @@ class SparseValidate(FunctionContract):
 def slave_context(E, name='ctx', shared=False, zero_mode=None, layout='seq'):
     """a slave context over four blocks (bit tables hold bools), all sequential or all sparse; zero_mode symbolic unless given"""
     blocks = {}
-    for t in 'dcih':
+    if layout == 'shared':
+        # one sequential block behind both bit tables and one behind both register tables (the same block object twice)
+        blocks['d'] = blocks['c'] = seq_block(E, '%s_bits' % name, 'bool')
+        blocks['i'] = blocks['h'] = seq_block(E, '%s_regs' % name, 'int')
+    for t in ('dcih' if layout != 'shared' else ''):
         mkblk = seq_block if layout == 'seq' else sparse_block
         blocks[t] = mkblk(E, '%s_%s' % (name, t), 'bool' if t in BIT_TABLES else 'int')
     zm = E.bool(name + '_zero_mode') if zero_mode is None else zero_mode
